@@ -192,8 +192,18 @@ pub fn gen_case(rng: &mut Rng, i: usize) -> Case {
             // fontinfo numbers with a signed / unsigned 16-bit target field
             const KEYS: &[(&str, bool)] = &[("openTypeOS2TypoAscender", true), ("openTypeHheaAscender", true), ("openTypeOS2WinAscent", false),
                                            ("openTypeHheaDescender", true), ("postscriptUnderlinePosition", true), ("openTypeOS2WinDescent", false)];
-            let (key, signed) = KEYS[j % KEYS.len()];
-            let v = if signed { pick_val(rng, j / KEYS.len(), I16_VALS, &i16_lim) } else { pick_val(rng, j / KEYS.len(), U16_VALS, &u16_lim) };
+            // the first cases walk over (key, limit, limit+1) directly; afterwards every key meets every directed value
+            const FIRST: &[(usize, f64)] = &[(0, 32767.0), (0, 32768.0), (2, 65535.0), (2, 65536.0), (1, 32768.0), (3, -32769.0),
+                                             (4, -32769.0), (5, 70000.0), (0, 40000.0), (1, -32768.0), (4, 32767.0), (5, -1.0)];
+            let (key, signed, v) = if j < FIRST.len() {
+                let (k, v) = FIRST[j];
+                (KEYS[k].0, KEYS[k].1, v)
+            } else {
+                let (key, signed) = KEYS[j % KEYS.len()];
+                let v = if signed { pick_val(rng, j / KEYS.len(), I16_VALS, &i16_lim) } else { pick_val(rng, j / KEYS.len(), U16_VALS, &u16_lim) };
+                (key, signed, v)
+            };
+            let _ = signed;
             let mut d = base_design(false, false);
             d.masters[0].info.push((key.to_string(), v));
             Case { field, vals: vec![v], sub: key.into(), design: d, big: false }
